@@ -302,9 +302,14 @@ func doParseType(vt reflect.Type, def string, i *int, allowPtrs bool) (*Type, er
 		/* parse the pointer element recursively */
 		if ret.V, err = doParseType(vt.Elem(), def, i, false); err != nil {
 			return nil, err
-		} else {
-			return ret, nil
 		}
+
+		/* maps, sets and lists are nil-able already; the codec has no pointer form for them */
+		switch ret.V.T {
+		case T_map, T_set, T_list:
+			return nil, EType(vt, "pointer to map, set or list is not allowed")
+		}
+		return ret, nil
 	}
 
 	/* check for value kind */
